@@ -1,5 +1,5 @@
 """Child side of the C10 hash-seed sweep: started as `/venv/bin/python harness/c10_child.py` with
-PYTHONHASHSEED=<k> in the environment, reads {"repo", "verif", "cases"} as JSON from stdin, cleans
+PYTHONHASHSEED=<k> in the environment, reads {"repo", "verif", "cases"} as JSON from the file named by argv[1], cleans
 every case with a fresh Cleaner (plain str keys - the order is this interpreter's own set order)
 and prints {"hashseed", "results": [{"observed", "out", "calls"}, ...]} as JSON on stdout."""
 import json
@@ -9,7 +9,8 @@ import sys
 
 
 def main():
-    doc = json.loads(sys.stdin.read())
+    with open(sys.argv[1]) as fh:
+        doc = json.load(fh)
     sys.dont_write_bytecode = True
     sys.path.insert(0, doc["verif"])
     sys.path.insert(0, doc["repo"])
